@@ -18,8 +18,9 @@ structure Inv (w : World) : Prop where
   capOk : ∀ c cr k, w.cells c = some cr → cr.cap = some k → k ≠ 0 → cr.agents.length ≤ k
   /-- no cell belongs to two spaces -/
   disj : ∀ s s' sr sr' c, w.spaces s = some sr → w.spaces s' = some sr' → c ∈ sr.cells → c ∈ sr'.cells → s = s'
-  /-- the cells of a space exist and are connected to cells of that space only -/
-  connIn : ∀ s sr c, w.spaces s = some sr → c ∈ sr.cells → ∃ cr, w.cells c = some cr ∧ ∀ d ∈ cr.conn, d ∈ sr.cells
+  /-- the cells of a space exist, are connected to cells of that space only, use its generator and (grids) its cell class -/
+  connIn : ∀ s sr c, w.spaces s = some sr → c ∈ sr.cells →
+    ∃ cr, w.cells c = some cr ∧ (∀ d ∈ cr.conn, d ∈ sr.cells) ∧ cr.rnd = s ∧ ∀ k, cr.klass = some k → k = s
   /-- the agents registered in a space's model exist, know it as their model, and point to cells of that space only -/
   regIn : ∀ s sr a, w.spaces s = some sr → a ∈ sr.reg →
     ∃ ar, w.agents a = some ar ∧ ar.home = s ∧ ∀ c, ar.cell = some c → c ∈ sr.cells
@@ -303,8 +304,8 @@ theorem Inv.dereg (hi : Inv w) {a : Nat} {ar : AgentRec} (har : w.agents a = som
     exact hi.disj s s' sr1' sr2' c h1' h2' (e1 ▸ hc1) (e2 ▸ hc2)
   · intro s sr1 c h1 hc
     obtain ⟨sr1', h1', e1, _⟩ := hsp s sr1 h1
-    obtain ⟨cr, hcr, hconn⟩ := hi.connIn s sr1' c h1' (e1 ▸ hc)
-    exact ⟨cr, hcr, fun d hd => e1 ▸ hconn d hd⟩
+    obtain ⟨cr, hcr, hconn, hrest⟩ := hi.connIn s sr1' c h1' (e1 ▸ hc)
+    exact ⟨cr, hcr, fun d hd => e1 ▸ hconn d hd, hrest⟩
   · intro s sr1 x h1 hx
     obtain ⟨sr1', h1', e1, hsub, _⟩ := hsp s sr1 h1
     obtain ⟨xr, hxr, hh, hcell⟩ := hi.regIn s sr1' x h1' (hsub x hx).1
@@ -365,8 +366,8 @@ theorem Inv.newAgent (hi : Inv w) (hw : WF w) {s : Nat} {sr : SpaceRec} (hsr : w
     exact hi.disj s1 s2 sr1' sr2' c h1' h2' (e1 ▸ hc1) (e2 ▸ hc2)
   · intro s1 sr1 c h1 hc
     obtain ⟨sr1', h1', e1, _⟩ := hsp s1 sr1 h1
-    obtain ⟨cr, hcr, hconn⟩ := hi.connIn s1 sr1' c h1' (e1 ▸ hc)
-    exact ⟨cr, hcr, fun d hd => e1 ▸ hconn d hd⟩
+    obtain ⟨cr, hcr, hconn, hrest⟩ := hi.connIn s1 sr1' c h1' (e1 ▸ hc)
+    exact ⟨cr, hcr, fun d hd => e1 ▸ hconn d hd, hrest⟩
   · intro s1 sr1 x h1 hx
     obtain ⟨sr1', h1', e1, hsub⟩ := hsp s1 sr1 h1
     rcases hsub x hx with hx0 | ⟨rfl, rfl⟩
@@ -403,14 +404,14 @@ theorem mem_connOf {base k : Nat} {pairs : List (Nat × Nat)} {i d : Nat} (h : d
   obtain ⟨p, ⟨_, hp⟩, rfl⟩ := h
   exact ⟨p.2, hp.2, rfl⟩
 
-theorem Inv.newSpace (hi : Inv w) (hw : WF w) (k : Nat) (cap : Option Nat) (pairs : List (Nat × Nat)) :
-    Inv (newSpace w k cap pairs).1 := by
+theorem Inv.newSpace (hi : Inv w) (hw : WF w) (k : Nat) (cap : Option Nat) (grid : Bool) (pairs : List (Nat × Nat)) :
+    Inv (newSpace w k cap grid pairs).1 := by
   simp only [Mesa.CopyOcc.newSpace]
   have hcell : ∀ c cr, (if w.next + 1 ≤ c ∧ c < w.next + 1 + k then
-        some ({ idx := c - (w.next + 1), agents := [], conn := connOf (w.next + 1) k pairs (c - (w.next + 1)), cap := cap } : CellRec)
+        some ({ idx := c - (w.next + 1), agents := [], conn := connOf (w.next + 1) k pairs (c - (w.next + 1)), cap := cap, rnd := w.next, klass := if grid then some w.next else none } : CellRec)
       else w.cells c) = some cr →
       (w.next + 1 ≤ c ∧ c < w.next + 1 + k ∧
-        cr = { idx := c - (w.next + 1), agents := [], conn := connOf (w.next + 1) k pairs (c - (w.next + 1)), cap := cap }) ∨
+        cr = { idx := c - (w.next + 1), agents := [], conn := connOf (w.next + 1) k pairs (c - (w.next + 1)), cap := cap, rnd := w.next, klass := if grid then some w.next else none }) ∨
       (c < w.next ∧ w.cells c = some cr) := by
     intro c cr h
     split at h
@@ -418,7 +419,7 @@ theorem Inv.newSpace (hi : Inv w) (hw : WF w) (k : Nat) (cap : Option Nat) (pair
       left; exact ⟨hr.1, hr.2, by simpa using h.symm⟩
     · right; exact ⟨hi.cellsLt _ _ h, h⟩
   have hold : ∀ c cr, w.cells c = some cr → (if w.next + 1 ≤ c ∧ c < w.next + 1 + k then
-        some ({ idx := c - (w.next + 1), agents := [], conn := connOf (w.next + 1) k pairs (c - (w.next + 1)), cap := cap } : CellRec)
+        some ({ idx := c - (w.next + 1), agents := [], conn := connOf (w.next + 1) k pairs (c - (w.next + 1)), cap := cap, rnd := w.next, klass := if grid then some w.next else none } : CellRec)
       else w.cells c) = some cr := by
     intro c cr h
     have := hi.cellsLt c cr h
@@ -466,11 +467,16 @@ theorem Inv.newSpace (hi : Inv w) (hw : WF w) (k : Nat) (cap : Option Nat) (pair
     · simp only [List.mem_map, List.mem_range] at hc
       obtain ⟨j, hj, rfl⟩ := hc
       have hr : w.next + 1 ≤ j + (w.next + 1) ∧ j + (w.next + 1) < w.next + 1 + k := by omega
-      refine ⟨_, if_pos hr, ?_⟩
-      intro d hd
-      obtain ⟨j', hj', rfl⟩ := mem_connOf hd
-      simp only [List.mem_map, List.mem_range]
-      exact ⟨j', hj', rfl⟩
+      refine ⟨_, if_pos hr, ?_, rfl, ?_⟩
+      · intro d hd
+        obtain ⟨j', hj', rfl⟩ := mem_connOf hd
+        simp only [List.mem_map, List.mem_range]
+        exact ⟨j', hj', rfl⟩
+      · intro k' hk'
+        simp only at hk'
+        split at hk'
+        · exact (Option.some.inj hk').symm
+        · cases hk'
     · obtain ⟨cr, hcr, hconn⟩ := hi.connIn s1 sr1 c h1 hc
       exact ⟨cr, hold c cr hcr, hconn⟩
   · intro s1 sr1 x h1 hx
@@ -577,13 +583,20 @@ theorem Inv.copyWorld (hi : Inv w) (hw : WF w) {s : Nat} {sr : SpaceRec} (hsr : 
       exact ⟨cr, (copyWorld_cells_old s sr (hi.cellsLt _ _ hcr)).trans hcr, hconn⟩
     · simp only [List.mem_map] at hc
       obtain ⟨c0, hc0, rfl⟩ := hc
-      obtain ⟨cr0, hcr0, hconn⟩ := hi.connIn s sr c0 hsr hc0
+      obtain ⟨cr0, hcr0, hconn, hrnd, hkl⟩ := hi.connIn s sr c0 hsr hc0
       have hin : sr.cells.contains c0 = true := by simpa using hc0
-      refine ⟨shiftCell w.next cr0, by rw [copyWorld_cells_shift, hin, if_pos rfl, hcr0]; rfl, ?_⟩
-      intro d hd
-      simp only [shiftCell, List.mem_map] at hd ⊢
-      obtain ⟨d0, hd0, rfl⟩ := hd
-      exact ⟨d0, hconn d0 hd0, rfl⟩
+      refine ⟨shiftCell w.next cr0, by rw [copyWorld_cells_shift, hin, if_pos rfl, hcr0]; rfl, ?_, by simp [shiftCell, hrnd], ?_⟩
+      · intro d hd
+        simp only [shiftCell, List.mem_map] at hd ⊢
+        obtain ⟨d0, hd0, rfl⟩ := hd
+        exact ⟨d0, hconn d0 hd0, rfl⟩
+      · intro k' hk'
+        cases hk0 : cr0.klass with
+        | none => simp [shiftCell, hk0] at hk'
+        | some k0 =>
+          simp only [shiftCell, hk0, Option.map_some, Option.some.injEq] at hk'
+          have := hkl k0 hk0
+          omega
   · intro s1 sr1 x h1 hx
     rcases copyWorld_spaces_cases s sr h1 with ⟨_, h1⟩ | ⟨rfl, rfl⟩
     · obtain ⟨xr, hxr, hh, hcell⟩ := hi.regIn s1 sr1 x h1 hx
@@ -683,7 +696,7 @@ theorem Inv.setCell (hi : Inv w) (a c : Nat) : Inv (setCell w a c).1 := by
 
 theorem Inv.step (hi : Inv w) (hw : WF w) (op : Op) : Inv (step w op) := by
   cases op with
-  | newSpace k cap pairs => exact hi.newSpace hw k cap pairs
+  | newSpace k cap grid pairs => exact hi.newSpace hw k cap grid pairs
   | newAgent s =>
     simp only [Mesa.CopyOcc.step]
     cases hsr : w.spaces s with
